@@ -12,870 +12,877 @@ Definition show_fres (r : fres) : string :=
   end.
 Definition check (rs : list rune) : string := digest (show_fres (format_res rs)).
 Definition full (rs : list rune) : string := show_fres (format_res rs).
-Eval vm_compute in ("<<<M1832>>>" ++ check (runes_of_ascii "packet Z9_ {
-    @calculatedFrom(""1"")
-    match body as u8x {
-        [7] : u,
-        [
-            7, 00, ""a\""b"", """", ""\n"",
-            00
-        ] : charz,
-        1 : Packet,
-        """ ++ [28040; 24687]%N ++ runes_of_ascii """ : f32a,
-        00 : len,
-    },
-    @lengthOf(calculatedFrom)
-    MetaDataX,
-    Packet @lengthOf(int),
-    repeat char[7] calculatedFrom,
-    @calculatedFrom(""a\\"")
-    zchar[255] f32a @calculatedFrom(""" ++ [233]%N ++ runes_of_ascii "t" ++ [233]%N ++ runes_of_ascii """),
-    @calculatedFrom(""a\""b"")
-    char[7] i8i8 @calculatedFrom(""a\\"") `crlf
-    line`,
-    zchar[0123456789] x `line1
-    line2`,
-    @leftPad()
-    repeat u64 stringy,
-    @lengthOf(x)
-    repeat body {
-        //	t
-        Z9_ {
-            repeat asx,
-            repeat crc i64_,
-            repeat rootA {
-                repeat rootA MetaDataX `line1
-                line2`,
-                match i64_ as calculatedFrom {
-                    7 : x,
-                    [7] : stringy,
-                    ""1"" : i8i8,
-                    [
-                        ""1"", 42, """ ++ [233]%N ++ runes_of_ascii "t" ++ [233]%N ++ runes_of_ascii """, 10, 255,
-                        0, 10
-                    ] : u,
-                    ""x y"" : i8i8,
-                },
-                uint64 _x `
-                `,
-                char[0] i64_ @calculatedFrom(""CRC32""),
-            },
-            x_y_z {
-                char[] T,
-            },
-        },
-        repeat u64 Foo `a\`,
-        uint8 uint8x,
-        match roots as chars {
-            1 : _x,
-            ""a\""b"" : uint8x,
-            42 : metadata,
-            // `tick` ""quote"" 'q'
-            [""\n"", 255] : zchar,
-            [""" ++ [233]%N ++ runes_of_ascii "t" ++ [233]%N ++ runes_of_ascii """, 3, 4294967296, 0123456789, ""x y""] : metadata,
-            [""it's"", ""// no comment""] : Z9_,
-        },
-    },
-}// a // b
-
-MetaData rootA {
-    char[4294967296] msg_type,// @lengthOf(
-    char[] u128,
-    uint64 a1,
-    int8 crc,
-    Pad msg_type `doc`,
-}
-
-//	t
-/// triple
-packet x_y_z {
-    @lengthOf(crc)
-    match packetx as f32a {
-        0123456789 : A,
-        00 : u,
-        // @lengthOf(
-    },
-}")).
-Eval vm_compute in ("<<<M313>>>" ++ check (runes_of_ascii "options { BodyLength = char[ 7] ;	}
-// c
-// @lengthOf(
-packet asx// " ++ [128512]%N ++ runes_of_ascii " emoji
-{ int16
-    x_y_z , @calculatedFrom(
-    """" ) @lengthOf(
+Eval vm_compute in ("<<<M266>>>" ++ check (runes_of_ascii "packet metadata { repeat f64 // " ++ [128512]%N ++ runes_of_ascii " emoji
+Foo , repeat
+Logon
+    f32a`
+` , @calculatedFrom( ""1"" ) repeat
+    uint8 // trailing space 
+calculatedFrom `u8 x,`
+, char[]
+    packetx , // packet A { u8 x, }
+@calculatedFrom(
+""abc"" ) Pad
+@lengthOf(msg_type  )`line1
+line2` ,
+@rightPad
+(
+' ' )
+tag`" ++ [233]%N ++ runes_of_ascii "` ,@tag( 10
     /// triple
-    chars) //
-repeat repeatCount
-charz
-/// triple
+    )u8x
+@calculatedFrom( ""CRC32"" ),match
+// trailing space 
+// trailing space 
+metadata
+as msg_type
+//
 // " ++ [27880; 37322]%N ++ runes_of_ascii "
-, @leftPad ( ) i64_@calculatedFrom(
-""\" ++ [233]%N ++ runes_of_ascii """	) `// not a comment` , tag Z9_
-`two words` ,
-@lengthOf( asx
-)@calculatedFrom(
-""`tick`""
-    )match uint8x as
-matchKey
-    {0123456789
-// packet A { u8 x, }
-// a // b
-: u8x ,1 : zchar , } ,u128 @lengthOf( u128 // packet A { u8 x, }
-)// " ++ [128512]%N ++ runes_of_ascii " emoji
-, } MetaData	msg_type  {
-string
-BodyLength  `two words` , options1// " ++ [128512]%N ++ runes_of_ascii " emoji
-i64_ ,
-    }// " ++ [128512]%N ++ runes_of_ascii " emoji
-packet roots { u `` , @calculatedFrom( ""a	b"")match len as	msg_type{
-    // c
-    """ ++ [28040; 24687]%N ++ runes_of_ascii """
-:
-charz}, crc @calculatedFrom(
-// packet A { u8 x, }
-// packet A { u8 x, }
-""it's"" ) `a\`
-,@leftPad
-( '0' )@tag( 007	) zchar[// trailing space 
-3
-    // trailing space 
-    ] falsey ,  @calculatedFrom(// `tick` ""quote"" 'q'
-""\n""
-    )@calculatedFrom(""CRC32""// c
-)
-    // trailing space 
-    match
-    //x
-    Packet as // @lengthOf(
-stringy	{ 1:
-Pad
-, ""it's"" :f32a ,
-} , @leftPad (
-' '
-)
-    match // " ++ [27880; 37322]%N ++ runes_of_ascii "
-int as	a1 { [ 0123456789 ,255]
+{[
+""\n"" //x
+, 0123456789// c
+] : options1
+,
+    ""\n""
     :
-    options1
-//x
-//x
-}
-    ,BodyLength
-    //
-    @calculatedFrom( """ ++ [28040; 24687]%N ++ runes_of_ascii """ ),
-float32
-    zchar
-@calculatedFrom( ""// no comment""
-)
-,	@tag( 10 ) zchar[
-    // packet A { u8 x, }
-    1  ] rootA , }
-")).
-Eval vm_compute in ("<<<M1695>>>" ++ check (runes_of_ascii "
-root packet  asx 
-{
-
-    leftPad{ u128@calculatedFrom(
-    ""1""  ) 
-, 	 //x
-	}
+    float ,},} packet
+// " ++ [128512]%N ++ runes_of_ascii " emoji
+// " ++ [128512]%N ++ runes_of_ascii " emoji
+MetaDataX {string string_ `doc`
 ,
-
-lengthOf// packet A { u8 x, }
-      @calculatedFrom(
-""" ++ [128512]%N ++ runes_of_ascii """ )  `a\` ,
-i64 	 // `tick` ""quote"" 'q'
-Packet
-
-@lengthOf( calculatedFrom )
-
-, @calculatedFrom(  """ ++ [233]%N ++ runes_of_ascii "t" ++ [233]%N ++ runes_of_ascii """
-
-    ) stringy a1
-
-`doc`  // `tick` ""quote"" 'q'
-	,
-
-    @rightPad
-	(
-
-    // a // b
-  )  
-      // c
-    a1
-`a\`
-,
-    char	Header
-@lengthOf(
-
-x  ) `say ""hi""`
-
-    , 
-uint8x
-    Z9_ `tab	here`  , }
-
-    options
-    {  calculatedFrom	// packet A { u8 x, }
-
-	=
-0
-}
-packet metadata  {@leftPad (
-
-'\x00')
-
-f32
-
-    pack 
-//	t
-
-  //
-,
-
-@tag(65535)
-
-    u32
-    uint8x @lengthOf(
-
-    repeatCount 
-) ``	,	MetaDataX {
-	repeat 
-options1
-,match
-
-matchKey
-
-as
-
-    len { 
-""" ++ [128512]%N ++ runes_of_ascii """:  u8x
-	,1
-    :zchar, /// triple
-	[
-""a\\""	, ""x y""]
-:charz
-
-    0 :  x_y_z
-    //
-	,
-[// trailing space 
-    4294967296// `tick` ""quote"" 'q'
-	  ]
-
-    : 
-asx
-,	[	/// triple
-    ""a\""b""
-	,
-
-    ""\n"" , ""\" ++ [233]%N ++ runes_of_ascii """
-,
-    10 
-]
-
-:  _x,
-    } 
-,uint8
-
-metadata 
-@lengthOf(
-float )
-
-    ,zchar[
-	255
-]i8i8
-	, }
-
-    , 
-} root	packet
-f32a{ }
-")).
-Eval vm_compute in ("<<<M1338>>>" ++ check (runes_of_ascii "options {
-    FixedStringPadFromLeft = true;
-    FixedStringPadChar = '0';
-}
-packet Leg {
-    InPrice0 {
-        repeat string clOrdID,
-        int16 msgKind,
-        zchar[5] Px,
-    },
-    i16 f1,
-    repeat f64 Side2,
-    string Acct,
-}
-packet Cancel {
-    zchar[4] clOrdID,
-    string seqNo,
-    Leg,
-    @leftPad('0') char[11] OrderId,
-}
-packet Quote {
-    repeat char[4] sym,
-    f64 OrderId,
-    repeat Leg,
-    repeat i64 f1,
-    int16 Note,
-    zchar[3] count,
-}
-root packet Ack {
-    @leftPad(' ') char[10] sym,
-    InPx60 {
-        Cancel,
-        repeat char[1] f1,
-        string Tail,
-        repeat InNote55 {
-            int8 count,
-            f64 f1,
-            repeat Cancel,
-        },
-        char[] tag7,
-        repeat string msgKind,
-    },
-    u8 lastPx,
-    match lastPx as Body {
-        152 : Quote,
-        173 : Cancel,
-        4 : Leg,
-    },
-    u16 Ref @calculatedFrom(""CRC32""),
-}
-")).
-Eval vm_compute in ("<<<M1371>>>" ++ check (runes_of_ascii "options {
-    FixedStringPadFromLeft = true;
-    FixedStringPadChar = '0';
-}
-packet Leg {
-    repeat InSym93 {
-        zchar[3] Acct,
-        string Side2,
-        i32 Flags,
-        f32 Note,
-        i32 msgKind,
-    },
-    f64 Note,
-    uint16 Px,
-}
-packet Quote {
-    zchar[2] OrderId,
-}
-packet Ack {
-    repeat string lastPx,
-    zchar[4] price,
-    uint32 OrderId,
-    Quote,
-    int8 Acct,
-}
-packet Fill {
-    repeat Leg,
-    @rightPad('0') char[11] Note,
-    f64 Px,
-    @rightPad('\x00') char[5] Flags,
-    zchar[9] x,
-    string msgKind,
-}
-root packet Order {
-    Leg,
-    repeat Ack,
-    @rightPad('\x00') char[3] Side2,
-    repeat char[1] seqNo,
-    u16 clOrdID,
-    match clOrdID as Body {
-        198 : Leg,
-        23 : Quote,
-        13 : Ack,
-        159 : Fill,
-    },
-    u32 venue @calculatedFrom(""CR\
-C32""),
-}
-")).
-Eval vm_compute in ("<<<M1355>>>" ++ check (runes_of_ascii "options	{StringPrefixLenType 
-= 
-u16
-
-;ArrayPrefixLenType = u32
-;FixedStringPadFromLeft
-
-= true; 
-FixedStringPadChar 
-='0'
-	;  }  packet
-    Cancel { }	packet
-
-Party
-{  }packet Logon
-{ }
-    packet	Ack { 
-}
-    packet Logout	{
-
-    repeat InSym87{
-
-    InClordid94
-{
-string clOrdID
-	,
-
-}  ,string
-
-Px ,	i16
-
-Qty,
-
-repeat
-	InCount71
-	{ repeat Cancel ,
-	uint16
-
-    Tail , char[ 2  ] x  ,
-repeat
-
-    string Ref,
-    }	,Cancel
-    ,},
-    }
-
-root
-	packet Order  {repeat
-
-    string
-
-    tag7
-
-    ,
-@leftPad
-
+@rightPad
     (
-
-' '
-	)
-    char[3
-] 
-Px
-,	u8
-
-    Qty ,  match Qty 
-as
-
-    Body
-    {
-[
-
-28 
-,62 ]
-    : Logon,148 : Ack , 88
-	:  Party ,
-
-184: Cancel ,
-    } , 
-u16
-
-    Note
-    @calculatedFrom(	""CRC32"") 
+    '0' ) zchar[
+// " ++ [128512]%N ++ runes_of_ascii " emoji
+// `tick` ""quote"" 'q'
+00 ]
+zchar `a\`
+,} options {leftPad = 0 float = 4294967296 ;
+}// `tick` ""quote"" 'q'
+root packet body{ @calculatedFrom( ""1"" ) @lengthOf( int ) match float as Z9_  {
+// packet A { u8 x, }
+// trailing space 
+42
+: x
+""packet"" :// `tick` ""quote"" 'q'
+matchKey	, """ ++ [28040; 24687]%N ++ runes_of_ascii """
+/// triple
+// packet A { u8 x, }
+: o ,	255 :	float }
+, @tag( 0123456789 ) match	calculatedFrom as // @lengthOf(
+trueish { [ ""packet"" , ""`tick`"" //x
+,	""" ++ [233]%N ++ runes_of_ascii "t" ++ [233]%N ++ runes_of_ascii """ ] : MetaDataX 4294967296 :trueish
+, 3 :
+// trailing space 
+// packet A { u8 x, }
+i64_ , 0123456789 :
+f32a , [ 7, //	t
+10	,	""CRC32"" ,	""x y"" , ""\n""
+    // `tick` ""quote"" 'q'
+    , ""CRC32""
+    , ""`tick`""
+    ]// `tick` ""quote"" 'q'
+: body , }, char[ 1//
+]Foo // " ++ [128512]%N ++ runes_of_ascii " emoji
+, @rightPad( ' ' ) @calculatedFrom( // " ++ [27880; 37322]%N ++ runes_of_ascii "
+""a	b""
+) repeat string_ { repeat Logon // @lengthOf(
+,	Z9_	i8i8 ,match Z9_ as
+    A {[ 42
+    ] :Logon , [ ""CRC32"" , 1 , ""a\""b"" , 4294967296 , 0, ""\" ++ [233]%N ++ runes_of_ascii """ ] : roots ""a\""b"" : MetaDataX , 255
+: _x
 ,
-	}")).
-Eval vm_compute in ("<<<M1120>>>" ++ check (runes_of_ascii "// top
-root
+    65535
+    :
+    rootA , }	,match _x as Foo {[ 255
+    , """ ++ [28040; 24687]%N ++ runes_of_ascii """ ,// packet A { u8 x, }
+""CRC32"" ,
+    // c
+    """ ++ [233]%N ++ runes_of_ascii "t" ++ [233]%N ++ runes_of_ascii """ ,
+    ""abc"" ] : len""a\\""
+: Pad  0
+: falsey,3 :	u128
+    ,
+} ,// a // b
+} , repeat // packet A { u8 x, }
+options1 int `{ , }`
+// packet A { u8 x, }
+//
+,
+}")).
+Eval vm_compute in ("<<<M1368>>>" ++ check (runes_of_ascii "// top
+options
     // c0
+{ // c1a
+  // c1b
+StringPrefixLenType // c2
+= u8 // c4
+; ArrayPrefixLenType = u8 ; FixedStringPadFromLeft
+    // c10
+= // c11
+false // c12a
+  // c12b
+;
+    // c13
+FixedStringPadChar // c14
+= // c15a
+  // c15b
+' ' ; // c17
+} // c18
 packet
-    // c1
+    // c19
+Ack // c20
+{
+    // c21
+char[]
+    // c22
+tag7 // c23
+, } packet Reject
+    // c27
+{
+    // c28
+InSym61 // c29
+{
+    // c30
+repeat Ack
+    // c32
+,
+    // c33
+zchar[
+    // c34
+4 // c35a
+  // c35b
+] // c36
+f1 // c37a
+  // c37b
+, // c38
+} ,
+    // c40
+} // c41
+packet Logout // c43a
+  // c43b
+{
+    // c44
+char[ // c45a
+  // c45b
+4
+    // c46
+] clOrdID ,
+    // c49
+} root // c51a
+  // c51b
+packet // c52a
+  // c52b
+Cancel { // c54a
+  // c54b
+@leftPad
+    // c55
+( ' ' // c57
+)
+    // c58
+char[
+    // c59
+10
+    // c60
+] price
+    // c62
+, // c63
+u8 x // c65a
+  // c65b
+, // c66
+u32 venue @lengthOf( // c69a
+  // c69b
+Body )
+    // c71
+,
+    // c72
+match x // c74
+as
+    // c75
+Body // c76
+{ // c77a
+  // c77b
+[ // c78a
+  // c78b
+92 // c79
+, 175 // c81
+] // c82a
+  // c82b
+: // c83a
+  // c83b
+Logout // c84a
+  // c84b
+, // c85a
+  // c85b
+26 : Reject , 144 : Ack // c92a
+  // c92b
+, // c93
+} // c94a
+  // c94b
+, u16 // c96a
+  // c96b
+count // c97
+@calculatedFrom( ""CRC32"" // c99
+) , // c101
+} ")).
+Eval vm_compute in ("<<<M1376>>>" ++ check (runes_of_ascii "// top
+options
+    // c0
+{ // c1a
+  // c1b
+LittleEndian
+    // c2
+= true // c4a
+  // c4b
+; // c5a
+  // c5b
+StringPrefixLenType = u64 // c8a
+  // c8b
+; // c9a
+  // c9b
+ArrayPrefixLenType // c10
+= u16 // c12
+; // c13
+FixedStringPadFromLeft =
+    // c15
+false ; // c17
+FixedStringPadChar =
+    // c19
+' '
+    // c20
+; } // c22
+packet Logon // c24
+{ // c25
+zchar[ // c26a
+  // c26b
+5 // c27
+] Side2 , }
+    // c31
+root // c32a
+  // c32b
+packet Logout
+    // c34
+{ // c35
+repeat
+    // c36
+i64 // c37
+Tail , // c39
+Logon
+    // c40
+,
+    // c41
+repeat i16 // c43a
+  // c43b
+OrderId // c44a
+  // c44b
+, // c45
+char[] // c46
+venue // c47
+, uint64 // c49a
+  // c49b
+x ,
+    // c51
+repeat i16
+    // c53
+count
+    // c54
+, // c55
+u8 Flags
+    // c57
+, // c58a
+  // c58b
+match // c59
+Flags as // c61
+Body
+    // c62
+{ 25
+    // c64
+: Logon // c66
+, } // c68
+, u16 // c70a
+  // c70b
+Qty // c71
+@calculatedFrom( // c72a
+  // c72b
+""CRC32"" // c73
+) // c74a
+  // c74b
+,
+    // c75
+}
+    // c76
+")).
+Eval vm_compute in ("<<<M379>>>" ++ check (runes_of_ascii "root
+    packet i64_ { trueish ,
+@calculatedFrom(""abc"") @tag( 7 )
+    // c
+    int16
+    asx
+, @calculatedFrom( ""a\\"" ) float32 crc
+@lengthOf(
+Foo ) ,	@tag( // `tick` ""quote"" 'q'
+42 // c
+) zchar[
+// c
+// packet A { u8 x, }
+7 ] asx @lengthOf( calculatedFrom) `// not a comment` , //
+repeat zchar[ 1]// a // b
+As ,	chars `two words` , @calculatedFrom( ""1"" )
+@tag(
+    // `tick` ""quote"" 'q'
+    0123456789 ) @leftPad ('0')
+    repeat
+    char[] BodyLength `tab	here`, } MetaData u128 // packet A { u8 x, }
+{
+u16 i64_
+,
+    float32 asx//
+`two words` ,//
+i64
+leftPad, zchar[ 00 // `tick` ""quote"" 'q'
+] _x
+    , //
+} MetaData chars
+    //
+    {Foo crc
+`say ""hi""` , uint8 u`two words` , // " ++ [128512]%N ++ runes_of_ascii " emoji
+f32
+pack
+`crlf
+line`, string _x `" ++ [233]%N ++ runes_of_ascii "`  , } packet x_y_z{ } options { calculatedFrom = ""CRC32"" crc
+    = uint16 ; u =
+false
+    Foo
+=
+    char  } // " ++ [128512]%N ++ runes_of_ascii " emoji")).
+Eval vm_compute in ("<<<M1515>>>" ++ check (runes_of_ascii "// top
+
+	root 
+        // c0
+	  packet 
+
+// c1
+
 _x
     // c2
+
 {
-    // c3
-match
-    // c4
-Foo
-    // c5
+// c3
+
+	match
+	// c4
+    Foo
+        // c5
 as
     // c6
 Z9_
     // c7
-{
-    // c8
+  	{
+// c8
 ""a	b""
-    // c9
-:
+// c9
+  	:
     // c10
-Pad
+    Pad
+// c11
+
+,
+
+// c12
+		}
+	// c13
+  , 
+        // c14
+	  repeat 
+
+    // c15
+      x 
+
+    // c16
+    `line1
+line2`
+	// c17
+  ,  
+      // c18
+  	@rightPad 
+	    // c19
+    (
+// c20
+  	' '
+// c21
+
+) 
+	    // c22
+
+  @calculatedFrom(  
+  // c23
+
+""a\\""
+
+// c24
+	  )
+	// c25
+		metadata
+    // c26
+	MetaDataX
+    // c27
+	,
+    // c28
+		@tag(  
+      // c29
+  0 
+    // c30
+    ) 
+    // c31
+  Logon
+	// c32
+    int
+    // c33
+    	`` 
+	    // c34
+		, 
+      // c35
+  	} 
+    // c36
+	  options
+
+    // c37
+
+{ 
+// c38
+  T 
+    // c39
+		= 
+        // c40
+	'\x00'
+// c41
+
+} 
+// c42
+")).
+Eval vm_compute in ("<<<M52>>>" ++ check (runes_of_ascii "  MetaData
+    // " ++ [27880; 37322]%N ++ runes_of_ascii "
+    packetx { zchar[ 7 ] leftPad
+`// not a comment` ,	}	packet i64_{@calculatedFrom(
+"""" )
+// trailing space 
+// c
+@lengthOf(
+x_y_z ) @tag( 00
+)
+repeatCount
+    // packet A { u8 x, }
+    @calculatedFrom(""1"" ), } packet falsey { int16
+_x
+@calculatedFrom(	""it's"") , } // @lengthOf(
+root
+packet matchKey
+    {repeat u32  Pad  `" ++ [233]%N ++ runes_of_ascii "`, zchar[ 7 ]
+    leftPad
+,match chars as lengthOf
+{ 1 :
+o
+    42 : chars
+// trailing space 
+// c
+,
+}//x
+, repeat
+zchar[
+    255]
+a1, matchKey //
+Packet
+    // `tick` ""quote"" 'q'
+    ,
+f32
+    tag
+    ,
+// @lengthOf(
+// trailing space 
+@calculatedFrom(  ""a\""b"" ) @leftPad( ' ' ) @lengthOf(
+T) stringy
+@lengthOf( o) ,packetx  i64_ ,}
+/// triple
+")).
+Eval vm_compute in ("<<<M164>>>" ++ check (runes_of_ascii "//x
+packet x { @lengthOf(
+string_ )
+// `tick` ""quote"" 'q'
+// trailing space 
+msg_type{
+int // a // b
+@lengthOf( chars
+    )
+//x
+// " ++ [27880; 37322]%N ++ runes_of_ascii "
+`" ++ [28040; 24687; 31867; 22411]%N ++ runes_of_ascii "` , int`a\`  , }
+    ,uint32 chars  @calculatedFrom(
+""`tick`""
+    )
+    `
+` , @lengthOf( packetx // trailing space 
+)
+match
+    metadata as x_y_z
+{ 65535	: x ,007
+// `tick` ""quote"" 'q'
+// " ++ [128512]%N ++ runes_of_ascii " emoji
+: u [ 7 ,
+""// no comment""	,  """ ++ [28040; 24687]%N ++ runes_of_ascii """] :x ""a\\""
+: MetaDataX,0123456789 : lengthOf
+10 :
+//
+// `tick` ""quote"" 'q'
+float  }
+    ,
+    u16 Logon@calculatedFrom(""x y"") `tab	here`
+//	t
+//
+,@lengthOf(Foo ) zchar /// triple
+, }  packet
+    tag { } root packet
+x_y_z{ } MetaData int {
+    string
+A `" ++ [233]%N ++ runes_of_ascii "` ,
+}
+")).
+Eval vm_compute in ("<<<M1678>>>" ++ check (runes_of_ascii "// top
+options {
+    // c1a
+    // c1b
+    LittleEndian = true;
+}
+
+// c6
+packet Logon {
+    u8 x,// c12
+}// c13a
+
+// c13b
+packet Logout {
+    // c16a
+    // c16b
+    u16 reason,
+}// c20
+
+root packet Frame {
+    u8 Kind,// c27a
+    // c27b
+    u8 Kind2,
+    match Kind as Body {
+        // c35
+        1 : Logon,
+        // c39
+        [2, 3, 4] : Logout,
+        // c49
+        100 : Logon,
+        // c53a
+        // c53b
+    },// c55
+    match Kind2 as Trailer {
+        // c60a
+        // c60b
+        0 : Logout,
+        // c64a
+        // c64b
+    },// c66
+}// c67")).
+Eval vm_compute in ("<<<M163>>>" ++ check (runes_of_ascii "options { As = // trailing space 
+zchar[ 4294967296] ; } //	t
+packet len // packet A { u8 x, }
+{ @lengthOf(
+_x) match
+    // c
+    lengthOf
+    as
+//
+// `tick` ""quote"" 'q'
+string_// c
+{
+    [ 4294967296 ]: i64_ ""a	b"": o
+,
+}
+, leftPad
+    @calculatedFrom( ""`tick`""	)
+// trailing space 
+// `tick` ""quote"" 'q'
+,@leftPad( '\x00' ) repeat charz /// triple
+msg_type
+,
+repeat i8
+Foo , }packet msg_type {
+//x
+// @lengthOf(
+@leftPad (
+'0'
+)
+u64 repeatCount @calculatedFrom(
+""" ++ [28040; 24687]%N ++ runes_of_ascii """) ,// packet A { u8 x, }
+}
+")).
+Eval vm_compute in ("<<<M307>>>" ++ check (runes_of_ascii "  packet	charz	{
+// " ++ [27880; 37322]%N ++ runes_of_ascii "
+/// triple
+repeat // c
+string int `" ++ [28040; 24687; 31867; 22411]%N ++ runes_of_ascii "` , @calculatedFrom( ""it's"" ) @tag(
+255 )  f64 // a // b
+asx
+,
+string
+T `doc` ,zchar[
+007 ]tag @lengthOf( //
+Z9_ )`// not a comment` , }
+options{ u= u16; }
+MetaData
+    chars
+    { i16 falsey , f64 pack,
+    char[  1
+    ]
+asx
+`it's`, char[] body ,
+// `tick` ""quote"" 'q'
+//x
+}packet leftPad { @rightPad
+(
+// @lengthOf(
+//x
+)
+repeat Pad float
+    `{ , }`
+,
+    }	options {
+    roots= true;  }
+")).
+Eval vm_compute in ("<<<M1329>>>" ++ check (runes_of_ascii "packet Frame {
+    u8 HK,
+    u8 BK,
+    u8 TK,
+    match HK as Hdr {
+        1 : HdrA,
+        2 : HdrB,
+    },
+    match BK as Body {
+        1 : BodyA,
+        2 : BodyB,
+    },
+    match TK as Trl {
+        1 : TrlA,
+    },
+}
+packet HdrA {
+    u8 a,
+}
+packet HdrB {
+    u16 b,
+}
+packet BodyA {
+    u32 c,
+}
+packet BodyB {
+    u64 d,
+}
+packet TrlA {
+    u8 e,
+}
+root packet Msg {
+    Frame,
+    u8 x,
+}
+")).
+Eval vm_compute in ("<<<M1503>>>" ++ check (runes_of_ascii "packet leftPad {
+    @tag(10)
+    @tag(007)
+    @lengthOf(a1)
+    // a // b
+    //
+    repeat metadata,
+}// " ++ [128512]%N ++ runes_of_ascii " emoji
+
+options {
+    lengthOf = """ ++ [128512]%N ++ runes_of_ascii """;
+}
+
+packet T {
+    A {
+        //
+        // `tick` ""quote"" 'q'
+        tag @calculatedFrom(""abc""),
+    },
+    @lengthOf(matchKey)
+    string Header @lengthOf(metadata),
+    leftPad @calculatedFrom(""a\""b"") `crlf
+    line`,
+}")).
+Eval vm_compute in ("<<<M1817>>>" ++ check (runes_of_ascii "root packet a1 {
+    tag Pad ``,
+}
+
+options {
+}
+
+root packet int {
+    uint64 f32a,
+}
+
+packet MetaDataX {
+    // c
+    @leftPad(' ')
+    /// triple
+    repeat uint16 Header `{ , }`,
+    // `tick` ""quote"" 'q'
+    /// triple
+}
+
+options {
+    Z9_ = false
+    falsey = ""x y"";
+    rootA = false
+    // a // b
+    Foo = true
+    lengthOf = float64
+}")).
+Eval vm_compute in ("<<<M1510>>>" ++ check (runes_of_ascii "packet zchar {
+    @calculatedFrom(""`tick`"")
+    uint32 falsey,
+}
+
+MetaData packetx {
+    string msg_type `u8 x,`,
+}
+
+packet i8i8 {
+    zchar @lengthOf(uint8x),
+}
+
+packet As {
+    zchar[4294967296] T @calculatedFrom(""abc""),
+    @tag(007)
+    repeat i16 u8x `say ""hi""`,
+    @lengthOf(u)
+    repeat uint16 u128,
+}")).
+Eval vm_compute in ("<<<M1316>>>" ++ check (runes_of_ascii "  packet
+
+    MDSnapshotZZ	{	u8
+
+a 
+, }  packet
+    OrderACK  { u16
+b, }packet
+	HTTPServerInfo	{
+string
+s
+
+    ,
+}	root
+    packet  FIXMsg
+    { u8
+KType
+,MDSnapshotZZ  , repeat
+
+    OrderACK,  match 
+KType as Body{1 :
+
+HTTPServerInfo  ,	2
+
+:OrderACK	,
+
+}
+
+    ,}")).
+Eval vm_compute in ("<<<M1696>>>" ++ check (runes_of_ascii "packet Header {
+    @calculatedFrom(""a	b"")
+    char[255] falsey `tab	here`,
+    int8 u `doc`,
+    float32 lengthOf @calculatedFrom(""a	b""),
+    @rightPad(' ')
+    @tag(3)
+    float64 asx,
+    int8 metadata @lengthOf(zchar),
+    Pad f32a,
+}")).
+Eval vm_compute in ("<<<M1303>>>" ++ check (runes_of_ascii "// top
+packet
+    // c0
+order_item // c1
+{ u8 // c3
+a // c4a
+  // c4b
+, // c5
+} root // c7
+packet
+    // c8
+new_order
+    // c9
+{ // c10
+order_item
     // c11
 ,
     // c12
-}
-    // c13
-,
-    // c14
-repeat
+u8 // c13a
+  // c13b
+x ,
     // c15
-x
-    // c16
-`line1
-line2`
-    // c17
-,
-    // c18
-@rightPad
-    // c19
-(
-    // c20
-' '
-    // c21
+} ")).
+Eval vm_compute in ("<<<M1516>>>" ++ check (runes_of_ascii "  packet msg_type
+{ zchar[ 65535
+        /// triple
+	]  stringy 	 // `tick` ""quote"" 'q'
+
+@calculatedFrom( """ ++ [233]%N ++ runes_of_ascii "t" ++ [233]%N ++ runes_of_ascii """ 
 )
-    // c22
-@calculatedFrom(
-    // c23
-""a\\""
-    // c24
-)
-    // c25
-metadata
-    // c26
-MetaDataX
-    // c27
-,
-    // c28
-@tag(
-    // c29
-0
-    // c30
-)
-    // c31
-Logon
-    // c32
-int
-    // c33
-``
-    // c34
-,
-    // c35
-}
-    // c36
-options
-    // c37
-{
-    // c38
-T
-    // c39
-=
-    // c40
-'\x00'
-    // c41
-}
-    // c42
-")).
-Eval vm_compute in ("<<<M208>>>" ++ check (runes_of_ascii "packet // packet A { u8 x, }
-u8x {}root packet
-    matchKey{
-repeat zchar[ 0123456789 ] // packet A { u8 x, }
-int , char[
-// `tick` ""quote"" 'q'
-// a // b
-4294967296 ]
-asx `{ , }`
-    ,
-repeat i8i8, repeat Packet { repeat
-    leftPad {	f32 u128
-@lengthOf(As ), body`two words` ,// packet A { u8 x, }
-rootA Pad , } , char[ 00
-] msg_type `tab	here` // " ++ [128512]%N ++ runes_of_ascii " emoji
-,
+, @tag(
+0)
     repeat
-    //x
-    i64_ `doc` , zchar x_y_z ,}
+
+    i64_	,	}
+	    // packet A { u8 x, }")).
+Eval vm_compute in ("<<<M1786>>>" ++ check (runes_of_ascii "  MetaData
+
+    leftPad{
+chars MetaDataX
+
 ,
-}
-root
-packet int {
-repeat f32a {repeat f32a  asx
-`u8 x,` ,} ,@lengthOf(
-// @lengthOf(
-//	t
-msg_type// packet A { u8 x, }
-) body ,
-// c
-//
-Z9_ // c
-zchar `a\` //x
-, } //x")).
-Eval vm_compute in ("<<<M64>>>" ++ check (runes_of_ascii "
-MetaData //	t
-body { T
-    calculatedFrom, string f32a `line1
-line2`, leftPad BodyLength
-`tab	here` ,
-}options {
-}
-MetaData
-    options1	{
-char[ 3 ] MetaDataX
-// " ++ [128512]%N ++ runes_of_ascii " emoji
-/// triple
-`" ++ [28040; 24687; 31867; 22411]%N ++ runes_of_ascii "` ,  BodyLength x	`
-`,u16 tag	`say ""hi""`, u8
-float ,float32 As `
-`
-    ,
-    i8i8 Z9_ `
-`, } packet u { @tag( 42
-) options1 // c
-o `crlf
-line` ,@calculatedFrom( ""`tick`""
-// packet A { u8 x, }
-// a // b
-) repeat
-    char[]	a1
-    //x
-    ,	} options
-    { uint8x=
-true
-    A
-= // `tick` ""quote"" 'q'
-7 ; // packet A { u8 x, }
-len=	""" ++ [128512]%N ++ runes_of_ascii """
-    }")).
-Eval vm_compute in ("<<<M328>>>" ++ check (runes_of_ascii "
-packet
-Logon { repeatCount { BodyLength
-    `crlf
-line`, }
-    , zchar a1 `u8 x,`  ,
-match Foo as Foo { ""\n"" :i8i8,[
-""abc""
-    , // trailing space 
-""CRC32"" ]
-/// triple
-// " ++ [128512]%N ++ runes_of_ascii " emoji
-: // @lengthOf(
-crc
-    [ 3 ,
-//
-// " ++ [128512]%N ++ runes_of_ascii " emoji
-""x y"", 42 , ""`tick`""
-, 1 , ""a\""b"",
-    ""CRC32"" , 255 ]:repeatCount , [// " ++ [128512]%N ++ runes_of_ascii " emoji
-1
-// a // b
-// " ++ [27880; 37322]%N ++ runes_of_ascii "
-,007 ,
-""\n"",007 , 7 , ""// no comment"" ,
-255 ] :
-    uint8x 00
-: f32a , } ,
-    // a // b
-    uint16 Pad @lengthOf( uint8x)// packet A { u8 x, }
-`doc`  ,
-}")).
-Eval vm_compute in ("<<<M335>>>" ++ check (runes_of_ascii "//	t
-packet u8x  {
-u8x { body
-@calculatedFrom(	""`tick`"") `say ""hi""`
-,match a1	as
-    asx // c
-{
-    //	t
-    0
-    :
-// " ++ [27880; 37322]%N ++ runes_of_ascii "
-// @lengthOf(
-asx }
-    ,}
-, @rightPad ( )
-    match Logon as	x { [
-    00 , ""// no comment"" , ""a\\"",0123456789
-    // trailing space 
-    ,
-    4294967296 ] : crc , 00:options1 , // " ++ [27880; 37322]%N ++ runes_of_ascii "
-42
-    :i8i8,0 : o 0123456789
-: body , } ,@tag(
-7 )float
-    @lengthOf(
-stringy) `" ++ [233]%N ++ runes_of_ascii "`,
-u
+    }
+    packet
+	repeatCount  {char[
+
+255
+
+    ]
+uint8x 
     // c
-    @lengthOf( msg_type )
-,
-    }")).
-Eval vm_compute in ("<<<M101>>>" ++ check (runes_of_ascii "MetaData T {  a1 Packet,// " ++ [128512]%N ++ runes_of_ascii " emoji
-uint8x
-// @lengthOf(
-//x
-Pad `" ++ [233]%N ++ runes_of_ascii "` , a1
-    // " ++ [27880; 37322]%N ++ runes_of_ascii "
-    MetaDataX ,	zchar[00]metadata`u8 x,` ,Pad// trailing space 
-x `
-` ,
-    i8
-u8x ,
-}  options { As =
-    false;}root packet options1 { @calculatedFrom( ""// no comment"" ) @lengthOf( _x	)
-    @tag(007 ) repeat
-// trailing space 
-// @lengthOf(
-f32 i8i8
-    `" ++ [233]%N ++ runes_of_ascii "` ,
-    @rightPad	( ' '// " ++ [27880; 37322]%N ++ runes_of_ascii "
-) repeat Pad , }
-")).
-Eval vm_compute in ("<<<M245>>>" ++ check (runes_of_ascii "MetaData float{ int16
-// c
-// " ++ [128512]%N ++ runes_of_ascii " emoji
-chars , int8 _x
-, char	charz ,
-Header  u8x
-    , u16 _x
-,
-    // @lengthOf(
-    x_y_z repeatCount ,}	packet Foo
-{ @tag(//	t
-1  )
-string Logon	`
-`
-, }//x
-options{ zchar =  ' ' trueish = //x
-""""
-    leftPad =255 ;
-}	root packet options1 {u64 packetx// `tick` ""quote"" 'q'
-@calculatedFrom(""// no comment""  ) ``,}
-")).
-Eval vm_compute in ("<<<M1713>>>" ++ check (runes_of_ascii "packet BodyLength {
-    repeatCount `// not a comment`,
-    @lengthOf(lengthOf)
-    @tag(65535)
-    @rightPad('0')
-    /// triple
-    u8 Logon,
+  	`" ++ [233]%N ++ runes_of_ascii "` 
+, 
 }
 
-packet chars {
-    o msg_type,
-    @tag(10)
-    zchar[65535] f32a,
-    repeat char[] i64_ `
-    `,
-}
+    MetaData pack
 
-root packet f32a {
-    @tag(255)
-    repeat u8 stringy,
-}")).
-Eval vm_compute in ("<<<M222>>>" ++ check (runes_of_ascii "packet
-body// @lengthOf(
-{ @lengthOf(
-T
-    // " ++ [27880; 37322]%N ++ runes_of_ascii "
-    ) @lengthOf(
-int ) @leftPad ( '\x00')
-asx//x
-len
-,
-repeat	zchar[ 3] int `" ++ [28040; 24687; 31867; 22411]%N ++ runes_of_ascii "` ,@lengthOf(
-    // @lengthOf(
-    options1)match
-    x
-    as //x
-leftPad // @lengthOf(
 {
-7
-:
-x_y_z , 65535:  u128 , 42 : x ,} , //
-}")).
-Eval vm_compute in ("<<<M308>>>" ++ check (runes_of_ascii "options { pack// `tick` ""quote"" 'q'
-= 0123456789
-}
-packet metadata { @leftPad ( ' ' ) stringy
-@lengthOf( _x )
-    , repeat	u8
-int
-    `{ , }` ,
-@leftPad //	t
-('0' ) repeat char msg_type `it's`,
-} MetaData x_y_z { // trailing space 
-}")).
-Eval vm_compute in ("<<<M350>>>" ++ check (runes_of_ascii "MetaData Pad
-{ i64 Packet `{ , }`
-    , // `tick` ""quote"" 'q'
-repeatCount  trueish // packet A { u8 x, }
-`say ""hi""`	, f32 pack`// not a comment` ,// `tick` ""quote"" 'q'
-u32
-calculatedFrom ,char //	t
-zchar
-,}
-")).
-Eval vm_compute in ("<<<M1632>>>" ++ check (runes_of_ascii "options {
-    Z9_ = ""packet"";
-    float = false;
-    A = ' '
-}
-
-// c
-MetaData pack {
-    zchar[3] leftPad,
-    zchar falsey `it's`,
-    char[] repeatCount,
-    char[65535] Z9_,
-}
-//	t")).
-Eval vm_compute in ("<<<M1196>>>" ++ check (runes_of_ascii "// top
-packet // c0a
-  // c0b
-body
-    // c1
-{ i32 // c3
-f32a
-    // c4
-`{ , }` // c5a
-  // c5b
-, }
-    // c7
-options // c8a
-  // c8b
-{ // c9
-} // c10a
-  // c10b
-")).
-Eval vm_compute in ("<<<M1564>>>" ++ check (runes_of_ascii "packet A {
-    match k as n {
-        [
-            1, 22, 007, 4, 5,
-            66, 7, 8, 9, 10,
-            11, 12
-        ] : B,
-        2 : C,
-    },
-}")).
-Eval vm_compute in ("<<<M446>>>" ++ check (runes_of_ascii "packet uint8x
+	As Foo ,  } ")).
+Eval vm_compute in ("<<<M501>>>" ++ check (runes_of_ascii "packet uint8x
 { match pack
     as msg_type	{
     0123456789 :	float
-} }
+}
+,
+} packet //	t
+a1
+    { } options {packetx
+    = '\x00' '\x00'	; u128= ""a	b""  ; }
+")).
+Eval vm_compute in ("<<<M401>>>" ++ check (runes_of_ascii "packet uint8x
+{ { match pack
+    as msg_type	{
+    0123456789 :	float
+}
 ,
 } packet //	t
 a1
     { } options {packetx
     = '\x00'	; u128= ""a	b""  ; }
 ")).
-Eval vm_compute in ("<<<M1782>>>" ++ check (runes_of_ascii "
-
-  MetaData	leftPad
-{ chars  MetaDataX// c
-  , }	packet
-repeatCount
-    {
-char[ 
-255]
-uint8x  `" ++ [233]%N ++ runes_of_ascii "`
-    ,
-
-    }
-
-    MetaData pack
-{As Foo	,
-}
-
-")).
-Eval vm_compute in ("<<<M527>>>" ++ check (runes_of_ascii "packet uint8x
+Eval vm_compute in ("<<<M549>>>" ++ check (runes_of_ascii "pa\cket uint8x
 { match pack
     as msg_type	{
     0123456789 :	float
@@ -884,261 +891,293 @@ Eval vm_compute in ("<<<M527>>>" ++ check (runes_of_ascii "packet uint8x
 } packet //	t
 a1
     { } options {packetx
-    = '\x00'	; u128= ""a	b""  } ;
+    = '\x00'	; u128= ""a	b""  ; }
 ")).
-Eval vm_compute in ("<<<M1747>>>" ++ check (runes_of_ascii "
+Eval vm_compute in ("<<<M507>>>" ++ check (runes_of_ascii "packet uint8x
+{ match pack
+    as msg_type	{
+    0123456789 :	float
+}
+,
+} packet //	t
+a1
+    { } options {packetx
+    = '\x00'	u128 ;= ""a	b""  ; }
+")).
+Eval vm_compute in ("<<<M465>>>" ++ check (runes_of_ascii "packet uint8x
+{ match pack
+    as msg_type	{
+    0123456789 :	float
+}
+,
+} packet //	t
+
+    { } options {packetx
+    = '\x00'	; u128= ""a	b""  ; }
+")).
+Eval vm_compute in ("<<<M687>>>" ++ check (runes_of_ascii "// @lengthOf(
+packet i8i8 { u128 o , , }
+options { MetaDataX = true;
+    BodyLength =""packet"" x_y_z= 007
+crc //x
+= ""abc"" ;
+    msg_type =
+i16 }")).
+Eval vm_compute in ("<<<M707>>>" ++ check (runes_of_ascii "// @lengthOf(
+packet i8i8 { u128 o , }
+options { MetaDataX = true;
+    BodyLength =MetaData x_y_z= 007
+crc //x
+= ""abc"" ;
+    msg_type =
+i16 }")).
+Eval vm_compute in ("<<<M1825>>>" ++ check (runes_of_ascii "
+packet
+	A {
+u16
+	len
+@lengthOf( 
+body)
+
+    `a
+    b
+  c` ,
+u32 crc  @calculatedFrom(
+    ""CRC32""
+	)
+	`a
+    b
+  c`,string body
+, 
+} ")).
+Eval vm_compute in ("<<<M1270>>>" ++ check (runes_of_ascii "options {
+    LittleEndian = true;
+}
+packet B {
+    u8 a,
+    string s,
+}
+root packet P {
+    u16 L @lengthOf(B),
+    B,
+    u8 t,
+}
+")).
+Eval vm_compute in ("<<<M1857>>>" ++ check (runes_of_ascii "MetaData leftPad {
+    chars MetaDataX,
+}
+
+packet repeatCount {
+    char[255] uint8x `" ++ [233]%N ++ runes_of_ascii "`,
+}
+
+MetaData pack {
+    As Foo,
+}
+// c")).
+Eval vm_compute in ("<<<M1517>>>" ++ check (runes_of_ascii "MetaData 
+zchar
+    {roots
+	A 
+, char[]
+falsey `line1
+line2`
+	, 
+
+    // " ++ [128512]%N ++ runes_of_ascii " emoji
+// @lengthOf(
+int
+
+crc
+
+    , }//	t")).
+Eval vm_compute in ("<<<M1170>>>" ++ check (runes_of_ascii "MetaData leftPad { chars MetaDataX , } packet repeatCount { char[ 255 ] uint8x
+// c
+`" ++ [233]%N ++ runes_of_ascii "` , } MetaData pack { As Foo , }")).
+Eval vm_compute in ("<<<M1820>>>" ++ check (runes_of_ascii "packet
+
+    FooBar{
+	u8
+	a
+
+    ,
+
+}packet
+
+foo_bar
+{  u16
+	b 
+, } root packet R {FooBar, foo_bar
+
+    , }
+")).
+Eval vm_compute in ("<<<M489>>>" ++ check (runes_of_ascii "packet uint8x
+{ match pack
+    as msg_type	{
+    0123456789 :	float
+}
+,
+} packet //	t
+a1
+    { } options")).
+Eval vm_compute in ("<<<M1708>>>" ++ check (runes_of_ascii "root packet
+    SimpleMessage	{
+
+    uint16
+MsgType 
+`" ++ [28040; 24687; 31867; 22411]%N ++ runes_of_ascii "`
+
+    , string
+
+JsonBody	`Json" ++ [23383; 31526; 20018; 28040; 24687; 20307]%N ++ runes_of_ascii "`,}")).
+Eval vm_compute in ("<<<M1304>>>" ++ check (runes_of_ascii "
+packet order_item
+
+{  u8
+a
+
+    , } root
 packet
 
-A { match  k
-    as
-n  {
-[  ""a""
-	,  ""bb""
-,
-""c c"" ,
-    ""d""	,	""e""
+    new_order{ order_item
+	,  u8
+x ,
 
-,
+}
 
-""f"" ,""g"" ,
-
-""h"" ,
-""i"",
-    ""j""
-    ,""k""]:
-B
-	,
-
-2
-	:C }
-
-,
-
-    }
 ")).
-Eval vm_compute in ("<<<M696>>>" ++ check (runes_of_ascii "// @lengthOf(
-packet i8i8 { u128 o , } }
-options { MetaDataX = true;
-    BodyLength =""packet"" x_y_z= 007
-crc //x
-= ""abc"" ;
-    msg_type =
-i16 }")).
-Eval vm_compute in ("<<<M720>>>" ++ check (runes_of_ascii "// @lengthOf(
-packet i8i8 { u128 o , }
-options { MetaDataX = true;
-    BodyLength =""packet"" =x_y_z 007
-crc //x
-= ""abc"" ;
-    msg_type =
-i16 }")).
-Eval vm_compute in ("<<<M650>>>" ++ check (runes_of_ascii "// @lengthOf(
-packet i8i8 { u128 o , }
-options { MetaDataX = true;
-    BodyLength =""packet"" x_y_z= 007
-crc //x
-=  ;
-    msg_type =
-i16 }")).
-Eval vm_compute in ("<<<M1565>>>" ++ check (runes_of_ascii "MetaData
-leftPad
-{	chars
-MetaDataX, }	packet 
-repeatCount{ char[
-
-    255 ] uint8x	`" ++ [233]%N ++ runes_of_ascii "`
-,  }
-// c
-	  MetaData
-pack
-{ As
-
-Foo 
-, }
-")).
-Eval vm_compute in ("<<<M1529>>>" ++ check (runes_of_ascii "
-
-  packet
-u
-
-{ repeat 
-// " ++ [128512]%N ++ runes_of_ascii " emoji
-  A
-	,
-	@lengthOf( lengthOf)
-repeat
-	i64 
-i64_
-,//
-
-	zchar[
-3// a // b
-    ]
-body 
-, }")).
-Eval vm_compute in ("<<<M1143>>>" ++ check (runes_of_ascii "MetaData // c
-leftPad { chars MetaDataX , } packet repeatCount { char[ 255 ] uint8x `" ++ [233]%N ++ runes_of_ascii "` , } MetaData pack { As Foo , }")).
-Eval vm_compute in ("<<<M1175>>>" ++ check (runes_of_ascii "MetaData leftPad { chars MetaDataX , } packet repeatCount { char[ 255 ] uint8x `" ++ [233]%N ++ runes_of_ascii "` , } // c
-MetaData pack { As Foo , }")).
-Eval vm_compute in ("<<<M1643>>>" ++ check (runes_of_ascii "
-packet A
-{ u16 len @lengthOf(body ) 
-`tab
-	x`
-
-, u32	crc@calculatedFrom(""CRC32"")	`tab
-	x`
-,  string body
-,
-    }")).
-Eval vm_compute in ("<<<M901>>>" ++ check (runes_of_ascii "packet A {
-  match k as n {
-    [""a"", ""bb"", 007, ""d"", ""e"", 66, ""g"", ""h"", 9, ""j"", ""k""] : B,
-    2 : C
-  },
-}")).
-Eval vm_compute in ("<<<M888>>>" ++ check (runes_of_ascii "packet A {
-  match k as n {
-    [""a"", ""bb"", 007, ""d"", ""e"", 66, ""g"", ""h"", 9, ""j""] : B,
-    2 : C
-  },
-}")).
-Eval vm_compute in ("<<<M854>>>" ++ check (runes_of_ascii "packet A {
-  match k as n {
-    [""a"", ""bb"", ""c c"", ""d"", ""e"", ""f"", ""g"", ""h""] : B,
-    2 : C
-  },
-}")).
-Eval vm_compute in ("<<<M119>>>" ++ check (runes_of_ascii "packet u{ @tag(10 // a // b
-) tag  @lengthOf( A
-// " ++ [128512]%N ++ runes_of_ascii " emoji
-// a // b
-) , repeat options1 ,  }")).
-Eval vm_compute in ("<<<M623>>>" ++ check (runes_of_ascii "
+Eval vm_compute in ("<<<M624>>>" ++ check (runes_of_ascii "
 packet
     asx {match u128 as lengthOf
 {
 //	t
 // `tick` ""quote"" 'q'
 255 : x ,
-    } ,	} }")).
-Eval vm_compute in ("<<<M594>>>" ++ check (runes_of_ascii "
+    } ,	repeat")).
+Eval vm_compute in ("<<<M588>>>" ++ check (runes_of_ascii "
 packet
     asx {match u128 as lengthOf
-{
+{ {
 //	t
 // `tick` ""quote"" 'q'
-: 255 x ,
+255 : x ,
     } ,	}")).
-Eval vm_compute in ("<<<M1086>>>" ++ check (runes_of_ascii "packet A { match k as n // a
- { // b
- 1 // c
- : // d
- B // e
- , // f
- } // g
- , // h
- }")).
-Eval vm_compute in ("<<<M1610>>>" ++ check (runes_of_ascii "packet A {
-    match k as n {
-        [1, 22, ""c c"", 4] : B,
-        2 : C,
-    },
+Eval vm_compute in ("<<<M281>>>" ++ check (runes_of_ascii "
+packet
+    o	{  }
+packet
+Pad {
+BodyLength // trailing space 
+, } packet metadata //x
+{}")).
+Eval vm_compute in ("<<<M850>>>" ++ check (runes_of_ascii "packet A {
+  match k as n {
+    [""a"", ""bb"", 007, ""d"", ""e"", 66, ""g""] : B
+    2 : C
+  },
 }")).
-Eval vm_compute in ("<<<M1589>>>" ++ check (runes_of_ascii "options {
-    FixedStringPadFromLeft = true;
-}
-
-root packet P {
-    char[4] z,
+Eval vm_compute in ("<<<M1544>>>" ++ check (runes_of_ascii "
+// top
+  MetaData 
+	// c0
+    tag 
+    // c1
+      {
+// c2
+      }
+        // c3
+")).
+Eval vm_compute in ("<<<M848>>>" ++ check (runes_of_ascii "packet A {
+  match k as n {
+    [1, 22, ""c c"", 4, 5, ""f"", 7] : B
+    2 : C
+  },
 }")).
-Eval vm_compute in ("<<<M464>>>" ++ check (runes_of_ascii "packet uint8x
+Eval vm_compute in ("<<<M125>>>" ++ check (runes_of_ascii "//	t
+options {
+    roots  =  ""\n""	; o
+    //
+    = '0' ;
+tag
+    =true
+    }")).
+Eval vm_compute in ("<<<M806>>>" ++ check (runes_of_ascii "packet A {
+  match k as n {
+    [""a"", 22, ""c c"", 4] : B,
+    2 : C
+  },
+}")).
+Eval vm_compute in ("<<<M449>>>" ++ check (runes_of_ascii "packet uint8x
 { match pack
     as msg_type	{
-    0123456789 :	float
-}
-,
-}")).
-Eval vm_compute in ("<<<M1762>>>" ++ check (runes_of_ascii "  options {  // " ++ [128512]%N ++ runes_of_ascii " emoji
+    0123456789 :	float")).
+Eval vm_compute in ("<<<M1955>>>" ++ check (runes_of_ascii "
+packet	A
 
-	Packet = // `tick` ""quote"" 'q'
+{ u8 
+x ,
 
-char[
-3 ]
-
-}
+}// a
+	// b
+packet	B{
+}	// c
+      // d
 ")).
-Eval vm_compute in ("<<<M796>>>" ++ check (runes_of_ascii "packet A {
-  match k as n {
-    [1, 22, ""c c""] : B
-    2 : C
-  },
-}")).
-Eval vm_compute in ("<<<M785>>>" ++ check (runes_of_ascii "packet A {
-  match k as n {
-    [""a"", 22] : B
-    2 : C
-  },
-}")).
-Eval vm_compute in ("<<<M1550>>>" ++ check (runes_of_ascii "root packet P {
-    repeat string ss,
-    repeat u16 ns,
-}")).
-Eval vm_compute in ("<<<M1242>>>" ++ check (runes_of_ascii "root packet
-    P {
-
+Eval vm_compute in ("<<<M1222>>>" ++ check (runes_of_ascii "// top
+packet
+    // c0
+x
+    // c1
+{
+    // c2
+}
+    // c3
+")).
+Eval vm_compute in ("<<<M1752>>>" ++ check (runes_of_ascii "root
+packet
+	P {
     char
 	c
-    , u8  x 
-,
 
-}
-")).
-Eval vm_compute in ("<<<M181>>>" ++ check (runes_of_ascii "options{ packetx=// " ++ [27880; 37322]%N ++ runes_of_ascii "
-string Logon // " ++ [27880; 37322]%N ++ runes_of_ascii "
-=  int8}")).
-Eval vm_compute in ("<<<M1125>>>" ++ check (runes_of_ascii "// top
-MetaData // c0
-u // c1
-{ // c2
-} // c3
-")).
-Eval vm_compute in ("<<<M31>>>" ++ check (runes_of_ascii "options {
-x=
-""{,}""
-matchKey=  true	; }
-")).
-Eval vm_compute in ("<<<M964>>>" ++ check (runes_of_ascii "root packet A {
-    u8 x `tab
-	x`,
-}")).
-Eval vm_compute in ("<<<M1284>>>" ++ check (runes_of_ascii "root packet P {
-    string s,
-}
-")).
-Eval vm_compute in ("<<<M1028>>>" ++ check (runes_of_ascii "packet A {
- u8 x `d" ++ [8287]%N ++ runes_of_ascii "`, // c" ++ [8287]%N ++ runes_of_ascii "
-}")).
-Eval vm_compute in ("<<<M1065>>>" ++ check (runes_of_ascii "packet A {
-}// a// b// c
-")).
-Eval vm_compute in ("<<<M1481>>>" ++ check (runes_of_ascii "
-packet
-	A	{	// a
+, 
+u8
 
-}
+    x  ,
+    }
 ")).
-Eval vm_compute in ("<<<M1526>>>" ++ check (runes_of_ascii "options {
-    // a
-}")).
-Eval vm_compute in ("<<<M992>>>" ++ check (runes_of_ascii "// c" ++ [133]%N ++ runes_of_ascii "
-packet A {
-}")).
-Eval vm_compute in ("<<<M1465>>>" ++ check (runes_of_ascii "MetaData roots {
-}")).
-Eval vm_compute in ("<<<M1650>>>" ++ check (runes_of_ascii "root packet A {
-}")).
-Eval vm_compute in ("<<<M376>>>" ++ check (runes_of_ascii "
+Eval vm_compute in ("<<<M1210>>>" ++ check (runes_of_ascii "packet body { i32 f32a `{ , }`
+// c
+, } options { }")).
+Eval vm_compute in ("<<<M756>>>" ++ check (runes_of_ascii "zchar ( : f64 ) , repeat f32 u16 float64 , ; :")).
+Eval vm_compute in ("<<<M337>>>" ++ check (runes_of_ascii "//	t
+options
+// c
 // " ++ [128512]%N ++ runes_of_ascii " emoji
+{
+    } // c")).
+Eval vm_compute in ("<<<M1068>>>" ++ check (runes_of_ascii "options { a = 1 // c b = 2; // d}")).
+Eval vm_compute in ("<<<M85>>>" ++ check (runes_of_ascii "options// c
+{MetaDataX =int16 }
 ")).
-Eval vm_compute in ("<<<M1020>>>" ++ check (runes_of_ascii "// c" ++ [8239]%N)).
+Eval vm_compute in ("<<<M983>>>" ++ check (runes_of_ascii "packet A {
+ u8 x `d" ++ [12288]%N ++ runes_of_ascii "`, // c" ++ [12288]%N ++ runes_of_ascii "
+}")).
+Eval vm_compute in ("<<<M419>>>" ++ check (runes_of_ascii "packet uint8x
+{ match pack")).
+Eval vm_compute in ("<<<M326>>>" ++ check (runes_of_ascii "  options{// a // b
+}
+
+")).
+Eval vm_compute in ("<<<M1108>>>" ++ check (runes_of_ascii "MetaData tag
+// c
+{ }")).
+Eval vm_compute in ("<<<M112>>>" ++ check (runes_of_ascii "packet falsey { }
+")).
+Eval vm_compute in ("<<<M1051>>>" ++ check (runes_of_ascii "packet A {
+}
+// c" ++ [65279]%N)).
+Eval vm_compute in ("<<<M1082>>>" ++ check (runes_of_ascii "options { // a
+ }")).
+Eval vm_compute in ("<<<M740>>>" ++ check (runes_of_ascii ", = , ; int16")).
+Eval vm_compute in ("<<<M1000>>>" ++ check (runes_of_ascii "// c" ++ [8192]%N)).
+Eval vm_compute in ("<<<M731>>>" ++ check (runes_of_ascii "/")).
